@@ -971,7 +971,44 @@ def asyncsign(rng):
     return {"cfg": _cfg(rng, n), "ops": ops}
 
 
-FAMILIES = {"asyncsign": asyncsign, "skim": skim, "batchopen": batchopen, "discomplete": discomplete, "monbcast": monbcast, "staletwo": staletwo, "bigclaim": bigclaim, "dustclose": dustclose, "slots": slots, "asynccross": asynccross, "blockedjump": blockedjump, "feecross": feecross, "opendisc": opendisc, "chainsettle": chainsettle, "crosslimit": crosslimit, "evhold": evhold, "failwin": failwin, "fanin": fanin, "inflight": inflight, "holdcell": holdcell, "stalehold": stalehold}
+def fwdlate(rng):
+    """A - B - C.  The channel B-C is closed while a forwarded HTLC is pending and C claims it on the chain; B's
+    monitor learns the preimage from the chain and B claims upstream -- but the monitor write recording that
+    upstream claim is still in flight (or B's manager was written long before) when B dies.  Restarted, B has
+    only its monitors to learn the preimage from again, however long ago the closed channel was resolved
+    (C02: claimed upstream whenever the preimage is learned downstream, by message or from the chain; C10)."""
+    ops = []
+    npay = 0
+    if rng.random() < 0.3:
+        ops += [{"op": "send", "from": 2, "to": 0, "amt": "big"}, {"op": "deliver_all"}]
+        npay += 1
+    for _ in range(rng.choice([1, 1, 2])):
+        ops += [{"op": "send", "from": 0, "to": 2, "amt": rng.choice(["big", "big", "justabove"])}, {"op": "deliver_all"}]
+        npay += 1
+    early_save = rng.random() < 0.4
+    if early_save:
+        ops.append({"op": "save", "node": 1})
+    a, b = rng.choice([(2, 1), (1, 2)])
+    ops.append({"op": "force_close", "a": a, "b": b})
+    ops += _deliveries(rng, [(1, 2), (2, 1)], rng.randrange(0, 4))
+    if not early_save and rng.random() < 0.5:
+        ops.append({"op": "save", "node": 1})
+    slow = rng.random() < 0.7
+    if slow:
+        ops.append({"op": "persist_mode", "node": 1, "mode": "inprogress"})
+    for k in range(npay):
+        if rng.random() < 0.85:
+            ops.append({"op": "claim", "pay": k})
+    ops.append({"op": "settle_chain", "keep_holds": True, "blocks": rng.choice([2, 4, 7, 8, 10, 14, 20]), "async": [1] if slow else []})
+    ops.append({"op": "crash", "node": 1, "mgr": rng.choice(["saved", 0, 0, 1]), "mon": rng.choice(["durable", "durable", "latest", "random"])})
+    ops += [{"op": "reconnect", "a": 0, "b": 1}, {"op": "reconnect", "a": 1, "b": 2}]
+    ops += _deliveries(rng, [(0, 1), (1, 0)], rng.randrange(0, 6))
+    ops.append({"op": "settle_chain"})
+    ops += [{"op": "proj", "final": True}]
+    return {"cfg": _cfg(rng, 3), "ops": ops}
+
+
+FAMILIES = {"fwdlate": fwdlate, "asyncsign": asyncsign, "skim": skim, "batchopen": batchopen, "discomplete": discomplete, "monbcast": monbcast, "staletwo": staletwo, "bigclaim": bigclaim, "dustclose": dustclose, "slots": slots, "asynccross": asynccross, "blockedjump": blockedjump, "feecross": feecross, "opendisc": opendisc, "chainsettle": chainsettle, "crosslimit": crosslimit, "evhold": evhold, "failwin": failwin, "fanin": fanin, "inflight": inflight, "holdcell": holdcell, "stalehold": stalehold}
 
 
 def make(rng, family, count):
